@@ -57,6 +57,27 @@ int main(int argc, char** argv) {
         const std::size_t timecnt = be32(hb + 32), typecnt = be32(hb + 36);
         const std::size_t tb = hb + 44 + tlen * timecnt, yb = tb + timecnt;
         if (img.size() >= yb + 6 * typecnt && typecnt >= 1 && typecnt <= 256) {
+          // the decoded ttinfo records and abbreviation bytes against the file
+          const std::size_t charcnt = be32(hb + 40), cb = yb + 6 * typecnt;
+          if (img.size() >= cb + charcnt && ty.size() >= typecnt) {
+            for (std::size_t t = 0; t < typecnt; t++) {
+              const long off = static_cast<long>(static_cast<std::int32_t>(static_cast<std::uint32_t>(be32(yb + 6 * t))));
+              if (ty[t].utc_offset != off || ty[t].is_dst != (img[yb + 6 * t + 4] != 0) || ty[t].abbr_index != static_cast<unsigned char>(img[yb + 6 * t + 5])) {
+                fprintf(stderr, "WF violated: type %zu does not carry the file's utc offset / DST flag / abbreviation index\n", t); return 3;
+              }
+            }
+            if (z.abbreviations_.size() < charcnt || memcmp(z.abbreviations_.data(), img.data() + cb, charcnt) != 0) {
+              fprintf(stderr, "WF violated: abbreviations_ does not start with the file's %zu abbreviation bytes\n", charcnt); return 3;
+            }
+            for (std::size_t i = 0; i < timecnt; i++) {
+              long long ft = 0;
+              for (std::size_t k = 0; k < tlen; k++) ft = (ft << 8) | static_cast<unsigned char>(img[hb + 44 + tlen * i + k]);
+              if (tlen == 4) ft = static_cast<std::int32_t>(static_cast<std::uint32_t>(ft));
+              bool found = false;
+              for (const auto& x : tr) if (x.unix_time == ft && x.type_index == static_cast<unsigned char>(img[tb + i])) found = true;
+              if (!found) { fprintf(stderr, "WF violated: the file's transition %zu (time and type index) is not in the table\n", i); return 3; }
+            }
+          }
           auto isdst = [&](std::size_t t) { return img[yb + 6 * t + 4] != 0; };
           bool used0 = false;
           for (std::size_t i = 0; i < timecnt; i++) used0 = used0 || img[tb + i] == 0;
